@@ -1,0 +1,9 @@
+//go:build verif
+
+package scanner
+
+// ZVCounters returns the scanner's counters after Scan has returned
+// (verification hook; plain reads, only call once all workers have finished).
+func (s *Scanner) ZVCounters() (certsProcessed, precertsSeen, unparsableEntries, entriesWithNonFatalErrors int64) {
+	return s.certsProcessed, s.precertsSeen, s.unparsableEntries, s.entriesWithNonFatalErrors
+}
